@@ -26,6 +26,14 @@ fn main() {
         s.require("flush-with-pending", 2000);
         s.require("flush-completed", 5000);
         s.require("e7:flush-true", 100);
+            // artifacts of the libFuzzer target `chan_c07` (engine E6 over E2) are replayed through the same entry
+            s.manual("fuzz-artifact", Vec::<Vec<u8>>::new(), |bytes, cx| {
+                cx.nontrivial(true);
+                match chan::fuzz::entry(bytes, Prop::C07) {
+                    Ok(()) => Ok(()),
+                    Err(f) => cx.fail(f.sig, format!("{}; decoded case: {:?}", f.msg, chan::fuzz::decode(bytes))),
+                }
+            });
             s.gen("e2-random", s.n(400_000, 12_000_000), || e2::case(e2::W_C07), |c, cx| e2::check(c, Prop::C07, cx));
             let max_len = if s.quick() { 6 } else { 7 };
             s.enumerate("e2-small-scope", e2::small_cases(max_len, &[1, 2]), |c, cx| e2::check(&c.to_case(), Prop::C07, cx));
